@@ -16,7 +16,74 @@ func (ex *Exec) doCall(st *State, fr *Frame, c *ssa.CallCommon, dst ssa.Value, p
 		args = append(args, ex.val(st, fr, a))
 	}
 	fnv := ex.val(st, fr, c.Value)
-	ex.callValue(st, fr, c, fnv, args, dst, pos, false, work)
+	gsAfter := ex.ghostSets(st, fr, c, "before")
+	pushed := ex.callValue(st, fr, c, fnv, args, dst, pos, false, work)
+	if len(gsAfter) > 0 {
+		if pushed {
+			tool("ghost 'after' assignment at a call that is inlined (give the callee a contract)")
+		}
+		if !st.Dead {
+			var res Value
+			if dst != nil {
+				res = fr.Regs[dst]
+			}
+			ex.runGhostSetsRes(st, fr, gsAfter, c.Signature(), res)
+		}
+	}
+}
+
+// ghostSets runs the 'before' assignments for this call and returns the pending 'after' ones.
+func (ex *Exec) ghostSets(st *State, fr *Frame, c *ssa.CallCommon, when string) []*GhostSet {
+	sp := ex.Specs.Funcs[specName(fr.Fn)]
+	if sp == nil || len(sp.GhostSets) == 0 {
+		return nil
+	}
+	callee := ""
+	if c.IsInvoke() {
+		callee = typeName(c.Value.Type()) + "." + c.Method.Name()
+	} else if f := c.StaticCallee(); f != nil {
+		callee = specName(f)
+	}
+	if callee == "" {
+		return nil
+	}
+	if fr.CallCount == nil {
+		fr.CallCount = map[string]int{}
+	}
+	fr.CallCount[callee]++
+	var before, after []*GhostSet
+	for _, gs := range sp.GhostSets {
+		if gs.Callee == callee && gs.Ord == fr.CallCount[callee] {
+			if gs.When == "before" {
+				before = append(before, gs)
+			} else {
+				after = append(after, gs)
+			}
+		}
+	}
+	ex.runGhostSets(st, fr, before)
+	return after
+}
+
+func (ex *Exec) runGhostSets(st *State, fr *Frame, sets []*GhostSet) {
+	ex.runGhostSetsRes(st, fr, sets, nil, nil)
+}
+
+// runGhostSetsRes: 'after' assignments may refer to the callee's results as result / result0.. / named results.
+func (ex *Exec) runGhostSetsRes(st *State, fr *Frame, sets []*GhostSet, sig *types.Signature, res Value) {
+	for _, gs := range sets {
+		env := ex.loopEnv(st, fr)
+		if sig != nil && res != nil {
+			env.bindResults(sig, res)
+		}
+		var vals []TV
+		for _, e := range gs.Exprs {
+			vals = append(vals, env.eval(e))
+		}
+		for i, n := range gs.Names {
+			env.setGhostGlobal(n, vals[i])
+		}
+	}
 }
 
 func resultType(sig *types.Signature) types.Type {
@@ -152,9 +219,20 @@ func isRepoClass(class string) bool {
 
 func (ex *Exec) preserved(class string) bool { return preservedClass(class) }
 
-func (ex *Exec) havocAll(st *State, repoToo bool) {
+func isGhostClass(class string) bool { return strings.Contains(class, "$") }
+
+// havocAll forgets the real heap (repository classes only when repoToo). Ghost state changes only
+// through declared events, except at calls of repository code without any contract (ghostToo).
+func (ex *Exec) havocAll(st *State, repoToo bool, ghostToo ...bool) {
+	gh := len(ghostToo) > 0 && ghostToo[0]
 	for class := range st.Heap {
 		if ex.preserved(class) {
+			continue
+		}
+		if isGhostClass(class) {
+			if gh {
+				st.havocClass(class)
+			}
 			continue
 		}
 		if !repoToo && isRepoClass(class) {
@@ -165,6 +243,9 @@ func (ex *Exec) havocAll(st *State, repoToo bool) {
 	st.HavExt = true
 	if repoToo {
 		st.HavRepo = true
+	}
+	if gh {
+		st.HavGhost = true
 	}
 }
 
@@ -228,7 +309,7 @@ func (ex *Exec) escapeArgs(st *State, args []Value) {
 func (ex *Exec) unknownCall(st *State, fr *Frame, what string, sig *types.Signature, args []Value, dst ssa.Value, repo bool) {
 	ex.note("havoc: " + what)
 	if repo || carriesCallback(args) {
-		ex.havocAll(st, true)
+		ex.havocAll(st, true, true)
 	} else {
 		ex.escapeArgs(st, args)
 		ex.havocAll(st, false)
@@ -282,14 +363,14 @@ func (ex *Exec) applyContract(st *State, fr *Frame, sp *FuncSpec, fn *ssa.Functi
 		}
 	}
 	// frame
-	switch {
-	case sp.ModNone:
-	case sp.ModAll:
+	if sp.ModAll {
 		ex.havocAll(st, true)
-	default:
-		for _, m := range sp.Modifies {
-			ex.havocLvalue(st, fr, env, m, pos)
+		if top := ex.topFrame(st); top.Spec != nil && !top.Spec.ModAll && ex.pure == nil {
+			ex.emit(st, "frame", "call:*@"+sp.Name, False, pos, top.Spec.Props)
 		}
+	}
+	for _, m := range sp.Modifies {
+		ex.havocLvalue(st, fr, env, m, pos)
 	}
 	{
 		// the callee may allocate even when it modifies nothing
@@ -304,7 +385,12 @@ func (ex *Exec) applyContract(st *State, fr *Frame, sp *FuncSpec, fn *ssa.Functi
 	env2.old = old
 	env2.bindResults(sig, res)
 	for _, c := range sp.Ensures {
-		st.assume(ex.evalBool(env2, c.Expr))
+		t := ex.evalBool(env2, c.Expr)
+		if k, ok := sp.Known[c.Label]; ok && c.Label != "" {
+			// a clause with a recorded finding is only established outside the recorded region
+			t = Implies(Not(ex.evalBool(env2, k.Expr)), t)
+		}
+		st.assume(t)
 	}
 	return res
 }
@@ -364,6 +450,7 @@ func (ex *Exec) builtin(st *State, fr *Frame, b *ssa.Builtin, c *ssa.CallCommon,
 		mt := c.Args[0].Type()
 		ref := args[0].(Scalar).T
 		ex.checkGuardedMapWrite(st, fr, c.Args[0], pos)
+		ex.checkFrameMap(st, mt, ref, pos)
 		key := ex.mapKey(st, args[1], under(mt).(*types.Map).Key())
 		// delete on nil map is a no-op
 		ex.mapDelete(st, mt, ref, key)
